@@ -202,7 +202,11 @@ func checkSelectorGrammar(r *Run, ga *GA, pfx string) {
 			r.Check(pfx+".path-part", key, ga.prog.pos(pfd.Pos()), ok && nret > 0, why)
 		}
 		// the Selector action itself: Path made of the parts in order; JSON pointer goes through pointerstructure.Parse
-		checkSelectorAction(r, ga, sn, pfx)
+		if ga.prog.SSA != nil {
+			checkSelectorActionSSA(r, ga, sn, pfx)
+		} else {
+			checkSelectorAction(r, ga, sn, pfx)
+		}
 	}
 	// one Selector production everywhere: every label asserted to Selector is bound to a reference to one and the same rule
 	rulesUsed := map[string]bool{}
